@@ -307,7 +307,64 @@ def plus_x(P, R, writers):
     R.floor('C05.GRD.1', 1)
 
 
+def mode_update(P, R, rule='C05.MPT.2'):
+    """"+x is sent when such a client asked for host hiding": the PASS prefix is folded into the client's modes so
+    that the last mention of a mode wins.  Either the two scratch sets (to set / to clear) are kept disjoint at every
+    step, or at least every "clear" step removes the mode from the to-set set and the to-clear set is applied before
+    the to-set set."""
+    f = None
+    for g in P.fns.values():
+        if any(c.ev.get('callee') == 'bitset_andnot' and any(on_path(a, 'modes') for a in c.ev['args'][:1]) for c in g.calls()):
+            f = g
+    if f is None:
+        raise AnalysisBroken('no function folds a to-clear set into the client modes')
+    ornot = [c for c in f.calls('bitset_andnot') if on_path(c.ev['args'][0], 'modes')]
+    ors = [c for c in f.calls('bitset_or') if on_path(c.ev['args'][0], 'modes')]
+    if not ornot or not ors:
+        raise AnalysisBroken('mode update no longer uses the bulk and-not / or')
+    C = root_var(ornot[0].ev['args'][2])
+    S = root_var(ors[0].ev['args'][2])
+    if C is None or S is None:
+        raise AnalysisBroken('mode update operands are not local sets')
+    C, S = C['name'], S['name']
+
+    def partner(s, other, kind):
+        return any(t.ev['k'] == kind and root_var(t.ev.get('set')) is not None and root_var(t.ev['set'])['name'] == other and t.ev.get('bit') == s.ev.get('bit') for t in f.block_sites(s.bid))
+    sets_S = [s for s in f.sites() if s.ev['k'] == 'bitset' and root_var(s.ev.get('set')) is not None and root_var(s.ev['set'])['name'] == S]
+    sets_C = [s for s in f.sites() if s.ev['k'] == 'bitset' and root_var(s.ev.get('set')) is not None and root_var(s.ev['set'])['name'] == C]
+    full = all(partner(s, C, 'bitclear') for s in sets_S) and all(partner(s, S, 'bitclear') for s in sets_C)
+    half = all(partner(s, S, 'bitclear') for s in sets_C)
+    order = f.before(ornot[0], ors[0]) if hasattr(f, 'before') else False
+    R.ob(rule, bool(sets_S) and bool(sets_C) and (full or (half and order)), ors[0],
+         'the last mention of a mode in the PASS prefix wins: to-set and to-clear are kept disjoint (%s), or clears drop the mode from to-set (%s) and to-clear is applied first (%s)' % (full, half, order), key='mode-update')
+    R.floor(rule, 1)
+
+
+IRCD_LINE = 512     # ircd's line buffer: the longest XREPLY / server line that can arrive
+
+
+def relay_capacity(P, R, rule='C05.BND.2'):
+    """Texts are relayed verbatim only if the outgoing line has room for them: a client-directed line is the text
+    that arrived (at most an ircd line) plus the " <id> <address> <port>" insertion, so the sender's buffer holds
+    at least an ircd line plus the widest insertion."""
+    from .. import bnd
+    snd = core.sender(P)
+    bufs = [s for s in snd.sites() if s.ev['k'] == 'decl' and s.ev.get('array') and s.ev.get('t', '').startswith('char[')]
+    ins = [s for s in snd.calls('snprintf')]
+    if not bufs or not ins:
+        raise AnalysisBroken('the sender has no local message buffer / insertion')
+    fmt = rules.fmt_literal(ins[0].ev, 2)
+    w = bnd.fmt_width(P, snd, fmt, ins[0].ev['args'][3:]) if fmt else None
+    ext = max(s.ev['array'] for s in bufs)
+    R.ob(rule, w is not None and ext >= IRCD_LINE + w, bufs[0], 'the sender\'s buffer (%d bytes) holds an ircd line (%d) plus the widest " <id> <address> <port>" insertion (%s)' % (ext, IRCD_LINE, w), key='relay-capacity')
+
+
 def run(P, R, tier):
+    mode_update(P, R)
+    relay_capacity(P, R)
+    # an account stamp "for this instance": instances are told apart by a serial that must not repeat
+    from . import c04
+    c04.serial_writers(P, Remap(R, {'C04.WMC.2': 'C05.WMC.3'}))
     # the class reported with the verdict depends on how the class rules read the account stamp
     from . import c11
     c11.matcher(P, Remap(R, {'C11.FMT.1': 'C05.FMT.2', 'C11.GRD.2': 'C05.GRD.2', 'C11.GRD.3': 'C05.GRD.2'}))
